@@ -364,6 +364,10 @@ def fit_spectral(ctx, a, nc, dec, reg, normalized, fb=False):
                                                          enc_vec(cap['values']), enc_mat(cap['vectors']), enc_f(TOL_CONTRACT))
     x = np.array([ctx.rng.choice([-2, -1, 0, 1, 2, 3]) for _ in range(n)], dtype=float)
     mv = cap['op'].dot(x)
+    # did the solver honour its contract on the operator it was actually given? (then a failing Lean contract means
+    # that this operator is not the model's operator: the implementation's outputs are still judged by the spec lines)
+    res = cap['op'].dot(cap['vectors']) - cap['vectors'] * cap['values'][None, :]
+    solver_ok = bool(np.all(np.abs(res) <= TOL_CONTRACT * (1 + np.abs(cap['op'].weights).max() + abs(reg_eff))))
 
     def builder(ok):
         cases = []
@@ -371,9 +375,11 @@ def fit_spectral(ctx, a, nc, dec, reg, normalized, fb=False):
         cases.append(Case(gkey + ('lapmv',), dict(sig0, check='laplacian-operator', entry='Laplacian.dot'),
                           'c09.lapmv %d %s %s %s %s' % (n, enc_mat(adj), enc_f(reg_eff), enc_bool(rw), enc_vec(x)),
                           'ok v=' + out_vec(mv), None, a.nnz > 1, desc))
-        if not ok:
+        if not ok and not solver_ok:
             ctx.count('contract-failed:eigsh')
             return cases
+        if not ok:
+            ctx.count('operator-mismatch:Laplacian')
         k_out = len(est.eigenvalues_)
         nontriv = a.nnz > 1 and k_out >= 1
         impl = 'ok bip=%s reg=%s k=%d ev=%s evec=%s emb=%s embcol=%s' % (
@@ -455,6 +461,9 @@ def fit_svd(ctx, kind, a, nc, reg=None, fr=0.5, fc=0.5, fs=0., normalized=True, 
                                                                       enc_vec(sv_c), enc_mat(u_c), enc_mat(v_c),
                                                                       enc_f(TOL_CONTRACT))
     op_dense = dense_of(sol.matrix)
+    scale = 1 + np.abs(op_dense).max()
+    solver_ok = bool(np.all(np.abs(op_dense.dot(v_c) - u_c * sv_c[None, :]) <= TOL_CONTRACT * scale) and
+                     np.all(np.abs(op_dense.T.dot(u_c) - v_c * sv_c[None, :]) <= TOL_CONTRACT * scale))
 
     def builder(ok):
         cases = []
@@ -470,9 +479,11 @@ def fit_svd(ctx, kind, a, nc, reg=None, fr=0.5, fc=0.5, fs=0., normalized=True, 
                 cases.append(Case(gkey + ('svdpost',), {'entry': 'LanczosSVD.fit', 'check': 'order'},
                                   'c09.svdpost %d %d %s %s %s' % (nr, ncol, enc_mat(u0), enc_vec(s0), enc_mat(vt0)),
                                   'ok sv=%s left=%s right=%s' % (out_vec(sv_c), out_mat(u_c), out_mat(v_c)), None, True, desc))
-        if not ok:
+        if not ok and not solver_ok:
             ctx.count('contract-failed:' + solver)
             return cases
+        if not ok:
+            ctx.count('operator-mismatch:' + kind)
         k_out = len(est.singular_values_)
         nontriv = a.nnz > 1 and k_out >= 1
         run = head + ' %s %s %s' % (enc_vec(sv_c), enc_mat(u_c), enc_mat(v_c))
